@@ -417,7 +417,15 @@ def execute_service(ctx: Ctx, fn: Func, cmd: Cmd, sc: Schema) -> None:
             wf = arg_fields.get(f)
             ctx.ob("C15.R6", fn, f"{f} is a {'repeated ' if rep else ''}{typ} field of ExecuteServiceArgument", wf is not None and wf.type == typ and (wf.label == "repeated") == rep, f"{wf}")
     # INT: version gate
-    ifs = [n for n in own_nodes(fn.node) if isinstance(n, ast.IfExp)]
+    # the choice is a conditional expression or (canonical spelling) an if/else assigning the field name to one local
+    class _Choice:
+        def __init__(self, test, body, orelse):
+            self.test, self.body, self.orelse = test, body, orelse
+
+    ifs = [_Choice(n.test, n.body, n.orelse) for n in own_nodes(fn.node) if isinstance(n, ast.IfExp)]
+    for n in own_nodes(fn.node):
+        if isinstance(n, ast.If) and len(n.body) == 1 and len(n.orelse) == 1 and isinstance(n.body[0], ast.Assign) and isinstance(n.orelse[0], ast.Assign) and norm(n.body[0].targets[0]) == norm(n.orelse[0].targets[0]):
+            ifs.append(_Choice(n.test, n.body[0].value, n.orelse[0].value))
     okv = False
     detail = "no version-dependent choice of the integer field"
     for e in ifs:
